@@ -131,6 +131,19 @@ def live(v, paths):
     return [p for p in paths if not dead_path(v, p)]
 
 
+
+
+def tb_none_decided(v, p):
+    """The path saw a talkback cell empty (the upstream it would talk to has ended or was disposed): nothing needs to be sent."""
+    tb = v.talkback_cells()
+    for (_, a, _) in guards_before(p, len(p.events)):
+        if a[0] == "opt" and a[1][0] == "cellload" and a[2] == "none" and base_key(a[1][1]) in tb:
+            return True
+        if a[0] == "discr" and a[1][0] == "cellload" and a[2] == 0 and base_key(a[1][1]) in tb:
+            return True
+    return False
+
+
 def lemma_rel_silent(ctx, v, bid, variant, lemma="REL-silent"):
     """No sends and no state writes on any path of the arm."""
     bad = []
@@ -162,6 +175,8 @@ def lemma_rel_one(ctx, v, bid, variant, cls, svariant, pkind, lemma="REL-1:1", w
                 problems.append("path sends %s" % ([(s[0], s[1], s[2]) for s in sig],))
             continue
         npaths += 1
+        if cls == "UPTB" and not sig and tb_none_decided(v, p):
+            continue      # relay through a talkback cell that was seen empty: that upstream is gone
         if len(sig) != 1 or len(want) != 1:
             problems.append("path sends %s" % ([(s[0], s[1], s[2]) for s in sig],))
     ok = not problems and npaths > 0
@@ -1376,7 +1391,7 @@ def _share_detach(ctx, v, d, var):
             continue
         if empt[-1][2]:
             kinds.add("last")
-            if [(v.cls_of(e)[0], e.variant) for _, e in sends] != [("UPTB", "Terminate")]:
+            if [(v.cls_of(e)[0], e.variant) for _, e in sends] != [("UPTB", "Terminate")] and not (not sends and tb_none_decided(v, p)):
                 probs.append("last detach does not send exactly one Terminate upstream")
         else:
             kinds.add("others-remain")
@@ -2000,7 +2015,7 @@ def transfer_lemmas(ctx, v):
             a = dec[0]
             if a[3] == "<" and a[4] == 0:
                 kinds.add("relay")
-                if sig != [("UPTB", "Pull")]:
+                if sig != [("UPTB", "Pull")] and not (not sig and tb_none_decided(v, p)):
                     probs.append("below the bound: sends %s" % sig)
             elif a[3] == ">=" and a[4] == 0:
                 kinds.add("drop")
@@ -2310,7 +2325,7 @@ def demand_lemmas(ctx, v):
             effs = ev_effects(p)
             st = [(i, e) for i, e in effs if e.kind == "atomic" and e.op == "store" and e.operand[3] == 1]
             sig = send_sig(v, d, "Pull", p)
-            if [(s[0], s[1]) for s in sig] != [("UPTB", "Pull")]:
+            if [(s[0], s[1]) for s in sig] != [("UPTB", "Pull")] and not (not sig and tb_none_decided(v, p)):
                 probs.append("DOWN.P sends %s" % [(s[0], s[1]) for s in sig])
             if not st or (sig and st[0][0] > sig[0][4]):
                 probs.append("the pull is not recorded before it is relayed")
